@@ -1080,8 +1080,7 @@ class FusedBlockwiseLayer:
                 holed[ck] = FusedBlockwiseLayer._node_fingerprint(task, {})
         return holed, cout
 
-    @staticmethod
-    def _probe_blocks(numblocks):
+    def _probe_blocks(self, numblocks):
         zero = tuple(0 for _ in numblocks)
         probes = {zero, tuple(n - 1 for n in numblocks)}
         for i, n in enumerate(numblocks):
@@ -1091,4 +1090,25 @@ class FusedBlockwiseLayer:
                     b[i] = v
                     probes.add(tuple(b))
         probes.add(tuple(min(i, n - 1) for i, n in enumerate(numblocks)))
+        # A fused creation op (ones/zeros/full/...) bakes its block's shape into the
+        # subgraph as a literal, so block-independence can break at any block whose
+        # chunk size differs from block 0's. Probe the first block of every distinct
+        # chunk size per axis (O(distinct sizes), not O(blocks)), so an irregular
+        # interior block cannot slip between the fixed sample positions.
+        try:
+            chunks = self.expr.chunks
+        except Exception:
+            chunks = ()
+        if len(chunks) == len(numblocks):
+            for i, dim in enumerate(chunks):
+                seen_sizes = set()
+                for j, c in enumerate(dim):
+                    if j >= numblocks[i]:
+                        break
+                    size = c if c == c else "nan"
+                    if size not in seen_sizes:
+                        seen_sizes.add(size)
+                        b = list(zero)
+                        b[i] = j
+                        probes.add(tuple(b))
         return probes
